@@ -45,7 +45,7 @@ AXIOM_ALLOW = set()
 TRUSTED_BASE = [
     "Coq 8.16.1 kernel (coqc); vm_compute for finite table facts; no native_compute; thorough tier re-checks with coqchk",
     "no axioms: every property theorem must print 'Closed under the global context'",
-    "tools/gen_tables.py (translator Rust tables -> coq/Gen/*.v)",
+    "tools/gen_tables.py (translator: character classes, escape/quoting/resolver tables, constants and guards, the scanner's dispatcher and the parser's node dispatcher -> coq/Gen/*.v)",
     "extraction with ExtrOcamlBasic only (no Extract Constant / no further Extract Inductive); ocamlfind ocamlopt 4.13.1; ocaml/driver.ml",
     "harness/ (Rust, links /repo's working tree with --cfg saphyr_verif) and this Python driver: feed identical inputs, compare honestly",
     "the hand-written Gallina model is tied to the code only by the table translator and the differential correspondence run",
